@@ -239,6 +239,8 @@ func exec1(op string) vlib.Res {
 		return execCacheStrip(f[2], f[3])
 	case "cache view":
 		return execCacheView(f[2])
+	case "msg doh":
+		return execDoH(f)
 	case "msg doq":
 		return execDoQ(f)
 	case "msg serve":
@@ -1336,6 +1338,9 @@ func gen(r *vlib.R, n int, tier string, emit func(string)) {
 		}
 		if r.Chance(1, 5) {
 			e("msg fingerprint")
+		}
+		if r.Chance(1, 5) {
+			e(fmt.Sprintf("msg doh %s lib=%s", vlib.Pick(r, []string{"get", "post"}), libPack(build(seed, p).m)))
 		}
 		if r.Chance(1, 6) {
 			zid := build(seed, p).m
